@@ -138,6 +138,15 @@ fn expand(st: &State, depth: usize, l: &mut Local, out: &mut Vec<State>) {
         }
         l.check("interpolation: stored values at knots, linear blend between, NaN outside", "", worst.is_none(), mk("interpolate"), || format!("{:?}", worst));
     }
+    if distinct && has_nan {
+        // with NaN ordinates in the series the knots still return exactly what is stored there: a finite
+        // value next to a NaN neighbour stays finite, a NaN stays NaN
+        let ok = xs.iter().zip(ys.iter()).all(|(x, y)| {
+            let v = s.interpolate(*x);
+            v == *y || (v.is_nan() && y.is_nan())
+        });
+        l.check("interpolation returns the stored value at knots", "NaN neighbours", ok, mk("interpolate"), || format!("xs {:?} ys {:?}", xs, ys));
+    }
     if !distinct {
         return;
     }
